@@ -54,7 +54,7 @@ TOKENS: list[bytes] = [
     b"255", b"256", b"300", b"999", b"0x41", b"0x7f", b"0x", b"http://", b"https://", b"ftp://", b"HtTp://", b"hxxp://",
     b"example.com", b"evil.example.org", b"a.bc", b"test.zip", b"xn--abcde", b"@", b":", b":80", b":99999", b"[::1]",
     b"[", b"%5B", b"%5D", b"1.2.3.4", b"93.184.216.34", b"127.1", b"0x7f.0.0.1", b"0177.0.0.1", b"256.1.1.1",
-    b"1.2.3.4.5", b"10.0.0.255", b"0.0.0.0", b"user:pass@", b"user:@", b"/", b"//", b"/./", b"/../", b"..", b".",
+    b"1.2.3.4.5", b"10.0.0.255", b"10.0.09.1", b"192.168.008.17", b"0x7F.0x0.0X0.0x1", b"0x00007f.1.1.1", b"00000010.1.1.1", b"1.2.3.0377", b"1.2.3.999", b"08.08.08.08", b"0.0.0.0", b"user:pass@", b"user:@", b"/", b"//", b"/./", b"/../", b"..", b".",
     b"?", b"#", b"?q=1", b"#frag", b"\\\\", b"\\\\host\\share\\file.exe", b"\\\\?\\", b"\\\\.\\", b"UNC\\", b"C:\\",
     b"C:\\Windows\\..\\x\\file.dll", b"c$\\", b"@SSL", b"@8080", b"Volume{01234567-89ab-cdef-0123-456789abcdef}\\",
     b"/usr/bin/env", b"/etc/passwd", b"./aaa/bbb", b"MZ", b"PE\x00\x00", b"\x3c\x00\x00\x00", b"file.exe", b"lib.dll",
